@@ -413,6 +413,15 @@ static int mutate_events(struct context_data *ctx)
 		if (vrng_chance(80)) {
 			e->fxt = fx[vrng_below(sizeof(fx) / sizeof(fx[0]))];
 			e->fxp = e->fxt == FX_SPEED ? vrng_range(1, 12) : vrng_chance(25) ? 0xff : vrng_below(256);
+			if (e->fxt == FX_EXTENDED && vrng_chance(75)) {
+				/* extended effects: the note-timing ones (delay, cut, retrigger, pattern delay) interact
+				 * with special notes and instruments, weight them up */
+				static const int ex[] = { EX_DELAY, EX_DELAY, EX_DELAY, EX_DELAY, EX_CUT, EX_CUT, EX_CUT, EX_RETRIG,
+							  EX_RETRIG, EX_RETRIG, EX_PATT_DELAY, EX_PATT_DELAY, EX_INVLOOP, EX_INVLOOP,
+							  EX_PATTERN_LOOP, EX_F_PORTA_DN, EX_F_PORTA_UP, EX_FINETUNE, EX_SETPAN,
+							  EX_F_VSLIDE_UP, EX_F_VSLIDE_DN, EX_GLISS, EX_VIBRATO_WF, EX_TREMOLO_WF };
+				e->fxp = (ex[vrng_below(sizeof(ex) / sizeof(ex[0]))] << 4) | vrng_below(16);
+			}
 		}
 		if (vrng_chance(25)) {
 			e->f2t = fx[vrng_below(sizeof(fx) / sizeof(fx[0]))];
